@@ -181,10 +181,68 @@ func registerStdIntrinsics(m map[string]intrinsic) {
 		return Agg{r.NewInput("time_wall", 64), r.NewInput("time_ext", 64), Ptr{}}
 	}
 	m["time.Since"] = func(r *Run, caller *frame, fn *ssa.Function, args []Value) Value {
-		r.stubs["time.Since"] = true
-		t := r.NewInput("time_since", 64)
-		r.Assume(r.ctx().Cmp(OSle, r.ctx().Const(64, 0), t))
-		return t
+		// the clock is an arbitrary non-decreasing count of elapsed milliseconds; the Duration value itself is
+		// an opaque fresh variable whose Milliseconds() is that count (no 64-bit division by 10^6 in the solver)
+		r.stubs["time.Since (arbitrary non-decreasing elapsed milliseconds)"] = true
+		c := r.ctx()
+		ms := r.NewInput("elapsed_ms", 64)
+		r.Assume(c.Cmp(OSle, c.Const(64, 0), ms))
+		r.Assume(c.Cmp(OSlt, ms, c.Const(64, 1<<62)))
+		if r.lastMs != nil {
+			r.Assume(c.Cmp(OSle, r.lastMs, ms))
+		}
+		r.lastMs = ms
+		d := r.NewInput("duration", 64)
+		if r.durMs == nil {
+			r.durMs = map[*Term]*Term{}
+		}
+		r.durMs[d] = ms
+		return d
+	}
+	m["(time.Duration).Milliseconds"] = func(r *Run, caller *frame, fn *ssa.Function, args []Value) Value {
+		d := r.termOf(args[0], "Duration.Milliseconds")
+		if ms, ok := r.durMs[d]; ok {
+			return ms
+		}
+		// a Duration not produced by the clock stub: d / 1e6 as in the real method
+		return r.ctx().Bin(OSDiv, d, r.ctx().Const(64, 1000000))
+	}
+	// ---- crypto/rand, math/big (only what randz uses) ----
+	m["math/big.NewInt"] = func(r *Run, caller *frame, fn *ssa.Function, args []Value) Value {
+		o := r.newObj(1, "big.Int")
+		o.cells[0] = args[0]
+		return Ptr{obj: o}
+	}
+	m["(*math/big.Int).Int64"] = func(r *Run, caller *frame, fn *ssa.Function, args []Value) Value {
+		p := args[0].(Ptr)
+		if p.obj == nil {
+			r.nilDeref()
+		}
+		return p.obj.cells[0]
+	}
+	m["crypto/rand.Int"] = func(r *Run, caller *frame, fn *ssa.Function, args []Value) Value {
+		r.stubs["crypto/rand.Int (arbitrary value in [0,max) or an error)"] = true
+		c := r.ctx()
+		mx := args[1].(Ptr)
+		if mx.obj == nil {
+			r.nilDeref()
+		}
+		max := r.termOf(mx.obj.cells[0], "rand.Int max")
+		if r.Branch(c.Cmp(OSle, max, c.Const(64, 0))) {
+			r.goPanicRuntimeStr("crypto/rand: argument to Int is <= 0")
+		}
+		if r.Choose(2, 'h') == 1 {
+			return Tuple{Ptr{}, r.newError(r.constString("crypto/rand: entropy source failed (stub)"))}
+		}
+		v := r.NewInput("crand_int", 64)
+		r.Assume(c.And(c.Cmp(OSle, c.Const(64, 0), v), c.Cmp(OSlt, v, max)))
+		o := r.newObj(1, "big.Int")
+		o.cells[0] = v
+		return Tuple{Ptr{obj: o}, Iface{}}
+	}
+	m["vh/vstub.RandByte"] = func(r *Run, caller *frame, fn *ssa.Function, args []Value) Value {
+		r.stubs["crypto/rand.Reader (arbitrary bytes)"] = true
+		return r.NewInput("crand_byte", 8)
 	}
 	m["time.Date"] = func(r *Run, caller *frame, fn *ssa.Function, args []Value) Value {
 		return Agg{r.ctx().Const(64, 0), r.ctx().Const(64, 0), Ptr{}}
